@@ -59,6 +59,25 @@ def generate(seed, idx, tier):
     cfg.pop('skip_preconditioning_dim_size_gt', None)
     tree = [[pick(rng, [4, 6, 8]), pick(rng, [3, 4, 5])]
             for _ in range(pick(rng, [1, 2]))]
+  # scale class: statistics far from unit scale on matrices that are not tiny
+  # (lambda_max ~ 1e-18..1e+16, n = 6..12): this is where the iterative
+  # routines leave their loops early or late (the power iteration's absolute
+  # tolerance, Newton's error-ratio test) and where absolute constants show
+  scale_class = None
+  if not lob and rng.random() < 0.2:
+    scale_class = 10.0 ** (-rng.randrange(3, 10) if rng.random() < 0.6
+                           else rng.randrange(3, 9))
+    cfg['block_size'] = pick(rng, [8, 16])
+    cfg.pop('merge_small_dims_block_size', None)
+    cfg.pop('skip_preconditioning_dim_size_gt', None)
+    cfg['best_effort_shape_interpretation'] = True
+    cfg['precondtioner_type'] = 1
+    cfg['eigh'] = rng.random() < 0.3
+    cfg['relative_matrix_epsilon'] = rng.random() < 0.85
+    cfg['matrix_epsilon'] = pick(rng, [1e-6, 1e-6, 1e-8, 1e-12])
+    cfg['exponent_override'] = 0
+    tree = [[rng.randrange(6, 13), rng.randrange(5, 11)]
+            for _ in range(pick(rng, [1, 1, 2]))]
   if mode == 'sharded':
     n = shp.tree_layout(tree, cfg)['n_stats']
     if not common.sharded_mesh_ok(n, D, mesh):
@@ -68,8 +87,12 @@ def generate(seed, idx, tier):
   ops = common.gen_history(rng, cfg, len(tree), T,
                            0.0 if not faulted else 1.0 / rng.randrange(4, 12),
                            scale_jumps=0.4, jumps=0.0)
+  if scale_class is not None:
+    for op in ops:
+      if op['op'] == 'STEP':
+        op['scale'] = float(op.get('scale', 1.0)) * scale_class
   return {'system': 'ds', 'class': f"{mode}_{'lobpcg' if lob else 'eigh' if cfg['eigh'] else 'newton'}"
-          f"{'_x64' if x64 else '_f32'}", 'x64': x64, 'mode': mode, 'D': D,
+          f"{'_x64' if x64 else '_f32'}{'_scaled' if scale_class else ''}", 'x64': x64, 'mode': mode, 'D': D,
           'mesh': mesh, 'config': cfg, 'tree': tree, 'lr': ds_gen.gen_lr(rng),
           'param_seed': rng.randrange(1000), 'ops': ops,
           'oracles': ['roots', 'gate', 'roots64']}
